@@ -317,6 +317,18 @@ GROUPS = {
         nontrivial='histories with at least two packets; all schedules',
         functions=['Clients::{register, unregister, send_packet}', 'Client::try_send_packet'],
     ),
+    # sampled end-to-end second line for C04: the real relay server and clients on loopback
+    'relay_e2e_cx': dict(
+        cargo='relay_e2e', binary='verif-relay-e2e', unit='(cargo) relay_e2e/src/main.rs', props=['C04'],
+        files='iroh-relay/src/server/client.rs, iroh-relay/src/server/clients.rs, iroh-relay/src/server/http_server.rs, iroh-relay/src/server/streams.rs',
+        bounds=dict(quick=['200', '0'], thorough=['2000', '0']),
+        space='SAMPLED, not exhaustive: two scripted runs of the real relay server (127.0.0.1, plain HTTP) and real relay clients on one single-threaded tokio runtime — '
+              '(1) endpoints 1 and 3 each write {0} distinguishable datagram batches (12..911 bytes, every ECN value, with and without a segment size) to endpoint 2, '
+              'alternating, and endpoint 1 a quarter as many to endpoint 3, before endpoint 2 reads anything; (2) endpoint 1 writes {0}/2 batches to endpoint 2, a second '
+              'connection of endpoint 2 takes over, endpoint 1 writes {0}/2 more. The interleaving of the relay\'s tasks is whatever the runtime produces for that script',
+        nontrivial='both runs',
+        functions=['the whole path Client::send -> relay connection actor (read) -> Clients::send_packet -> destination connection actor (write) -> Client::next'],
+    ),
     # second line behind the Verus unit hooks
     'hooks_bx': dict(
         unit='hooks.rs', props=['C42'],
@@ -635,6 +647,9 @@ def run_cargo_group(g, d, res, work, tier, only, t0):
         p = subprocess.run(args, capture_output=True, text=True, timeout=3000)
     except subprocess.TimeoutExpired:
         res['reason'] = 'bounded run timed out'
+        return res
+    if p.returncode == 3 and 'HARNESS-' in p.stderr:
+        res['reason'] = 'the harness could not run its scenario: ' + p.stderr.strip().splitlines()[-1][:300]
         return res
     if p.returncode != 0:
         res['status'] = 'failed'
